@@ -509,6 +509,8 @@ func fixedTrees() []TreeCase {
 		{Base: "https://a.example/base", Version: "b1", Primary: 0, Manifest: true, Files: []FileSpec{f("p", "main.html"), f("i", "dir one", "index.html"), {Path: []string{"dir one", "bin"}, Body: vh.B{0, 1, 2, 0xff}, Fill: 70000}}},
 		{Base: "https://b.example/base/", Version: "default", Files: []FileSpec{f("x", "-rf"), f("y", "--help"), f("z", "a", "b", "c.txt"), f("", "a", "b", "index.html")}},
 		{Base: "https://c.example/x/y/", Version: "b1", Primary: 0, Files: []FileSpec{f("<p>", "index.html"), f("q", "index.html.bak"), f("r", "xindex.html")}},
+		// URL metacharacters in names (finding F7; skipped under VERIF_C20_SKIP_F7=1)
+		{Base: "https://a.example/base/", Version: "b2", Files: []FileSpec{f("h", "h#frag.txt"), f("q", "a?b"), f("p", "p%41"), f("x", "100%"), f("c", "c:d.txt"), f("n", "sub:dir", "x y#1.txt")}},
 	}
 }
 
